@@ -4,6 +4,7 @@ import (
 	"log"
 	"maps"
 	"slices"
+	"sync"
 	"time"
 
 	"github.com/gopcua/opcua/id"
@@ -71,10 +72,14 @@ type Node struct {
 	val  ValueFunc
 
 	ns NameSpace
+
+	// mu guards val and attr: the application updates a node with SetAttribute
+	// from its own goroutines while the server reads it to answer clients.
+	mu sync.RWMutex
 }
 
 func NewNode(id *ua.NodeID, attr Attributes, refs References, val ValueFunc) *Node {
-	n := &Node{id, attr, refs, val, nil}
+	n := &Node{id: id, attr: attr, refs: refs, val: val}
 	n.sanitize()
 	return n
 }
@@ -175,27 +180,39 @@ func (n *Node) ID() *ua.NodeID {
 }
 
 func (n *Node) Value() *ua.DataValue {
-	if n.val == nil {
+	n.mu.RLock()
+	val := n.val
+	n.mu.RUnlock()
+	if val == nil {
 		return nil
 	}
-	return n.val()
+	return val()
 }
 
 func (n *Node) Attribute(id ua.AttributeID) (*AttrValue, error) {
+	n.mu.RLock()
+	valFn := n.val
+	hasAttr := n.attr != nil
+	var attrVal *ua.DataValue
+	if hasAttr {
+		attrVal = n.attr[id]
+	}
+	n.mu.RUnlock()
+
 	switch {
 	case id == ua.AttributeIDValue:
-		if n.val != nil {
-			val := n.val()
+		if valFn != nil {
+			val := valFn()
 			if val == nil {
 				return nil, ua.StatusBadAttributeIDInvalid
 			}
 			return NewAttrValue(val), nil
 		}
 		return nil, ua.StatusBadAttributeIDInvalid
-	case n.attr == nil:
+	case !hasAttr:
 		return nil, ua.StatusBadAttributeIDInvalid
 	default:
-		if v := n.attr[id]; v != nil {
+		if v := attrVal; v != nil {
 			return NewAttrValue(v), nil
 		}
 		return nil, ua.StatusBadAttributeIDInvalid
@@ -203,6 +220,8 @@ func (n *Node) Attribute(id ua.AttributeID) (*AttrValue, error) {
 }
 
 func (n *Node) SetAttribute(id ua.AttributeID, val *ua.DataValue) error {
+	n.mu.Lock()
+	defer n.mu.Unlock()
 
 	switch id {
 	case ua.AttributeIDValue:
@@ -361,7 +380,7 @@ func (n *Node) AddRef(o *Node, rt RefType, forward bool) {
 // I'm not sure what the best way to implement "user" specific access levels
 // is presently.  Will need functioning user authentication first, and then a way to
 // pass it into the nodes user access attribute so it can be checked properly.
-func (n Node) Access(flag ua.AccessLevelType) bool {
+func (n *Node) Access(flag ua.AccessLevelType) bool {
 
 	access, err := n.Attribute(ua.AttributeIDUserAccessLevel)
 	if err == nil { // if we have a user access level, we need to check it.
